@@ -134,7 +134,7 @@ package stream
 //@ modifies nothing
 
 //@ func (*checkpoint).Save
-//@ props C01 C02 C05 C06
+//@ props C01 C02 C05 C06 C13
 //@ requires s != nil && s.stream != nil && typeis(s.stream, "*stream") && s.saveLock != nil && s.metric != nil && s.metadata != nil
 //@ requires as(s.stream, "*stream").offsets != nil && as(s.stream, "*stream").dirtyOffsets != nil
 //@ let st = as(s.stream, "*stream")
@@ -170,12 +170,12 @@ package stream
 //@   invariant.vals forall vb uint16 :: has(dirtyOffsets, vb) ==> dirtyOffsets[vb] == at(mid, st.dirtyOffsets[vb])
 //@   modifies content(dirtyOffsets)
 //@ ensures.skip[C05] !any ==> calls(metadata.Metadata.Save) == 0 && calls(stream.Stream.UnmarkDirtyOffsets) == 0 && st.dirtyOffsets == dirt && unchanged(st.dirtyOffsets) && st.anyDirtyOffset == any && unchanged(st.offsets)
-//@ ensures.once[C05] any ==> calls(metadata.Metadata.Save) == 1 && arg(metadata.Metadata.Save, 0, recv) == old(s.metadata) && arg(metadata.Metadata.Save, 0, bucketUUID) == s.bucketUUID
+//@ ensures.once[C05,C13] any ==> calls(metadata.Metadata.Save) == 1 && arg(metadata.Metadata.Save, 0, recv) == old(s.metadata) && arg(metadata.Metadata.Save, 0, bucketUUID) == s.bucketUUID
 //@ ensures.dumpdom[C01,C02] any ==> forall vb uint16 :: has(state, vb) == old(has(st.offsets, vb))
 //@ ensures.dump[C01,C02,C06] any ==> forall vb uint16 :: has(state, vb) ==> state[vb] != nil && state[vb].Checkpoint != nil && state[vb].Checkpoint.Snapshot != nil && state[vb].Checkpoint.VbUUID == old(st.offsets[vb].VbUUID) && state[vb].Checkpoint.SeqNo == old(st.offsets[vb].SeqNo) && state[vb].Checkpoint.Snapshot.StartSeqNo == old(st.offsets[vb].StartSeqNo) && state[vb].Checkpoint.Snapshot.EndSeqNo == old(st.offsets[vb].EndSeqNo)
 //@ ensures.dirtydump[C05] any ==> forall vb uint16 :: has(dump, vb) == old(has(st.dirtyOffsets, vb)) && (has(dump, vb) ==> dump[vb] == old(st.dirtyOffsets[vb]))
 //@ ensures.interference[C05] any ==> (forall vb uint16 :: old(has(st.offsets, vb)) ==> at(mid, has(st.offsets, vb) && st.offsets[vb].SeqNo >= old(st.offsets[vb].SeqNo))) && (forall vb uint16 :: old(has(st.dirtyOffsets, vb) && st.dirtyOffsets[vb]) ==> at(mid, has(st.dirtyOffsets, vb) && st.dirtyOffsets[vb])) && at(mid, st.anyDirtyOffset)
-//@ ensures.forget_only_stored[C05] saved ==> forall vb uint16 :: at(mid, has(st.dirtyOffsets, vb) && st.dirtyOffsets[vb]) && !(old(has(st.dirtyOffsets, vb) && st.dirtyOffsets[vb] && has(st.offsets, vb)) && at(mid, st.offsets[vb].SeqNo) == old(st.offsets[vb].SeqNo)) ==> has(st.dirtyOffsets, vb) && st.dirtyOffsets[vb] && st.anyDirtyOffset
+//@ ensures.forget_only_stored[C05,C13] saved ==> forall vb uint16 :: at(mid, has(st.dirtyOffsets, vb) && st.dirtyOffsets[vb]) && !(old(has(st.dirtyOffsets, vb) && st.dirtyOffsets[vb] && has(st.offsets, vb)) && at(mid, st.offsets[vb].SeqNo) == old(st.offsets[vb].SeqNo)) ==> has(st.dirtyOffsets, vb) && st.dirtyOffsets[vb] && st.anyDirtyOffset
 //@ ensures.forget_stored[C05] saved ==> forall vb uint16 :: old(has(st.dirtyOffsets, vb) && st.dirtyOffsets[vb] && has(st.offsets, vb)) && at(mid, st.offsets[vb].SeqNo) == old(st.offsets[vb].SeqNo) ==> !has(st.dirtyOffsets, vb)
 //@ ensures.flag_down_only_when_clean[C05] saved && !st.anyDirtyOffset ==> forall vb uint16 :: !has(st.dirtyOffsets, vb)
 //@ ensures.fail[C05] any && ret(metadata.Metadata.Save, 0) != nil ==> calls(stream.Stream.UnmarkDirtyOffsets) == 0 && st.dirtyOffsets == dirt && st.anyDirtyOffset == at(mid, st.anyDirtyOffset) && forall vb uint16 :: has(st.dirtyOffsets, vb) == at(mid, has(st.dirtyOffsets, vb)) && st.dirtyOffsets[vb] == at(mid, st.dirtyOffsets[vb])
@@ -259,6 +259,7 @@ package stream
 //@ let n = dcalls("stream.(*stream).openStream")
 //@ loop 1 unroll 6
 //@ ensures.closed_gives_up[C11] old(s.observers) == nil ==> n == 0
+//@ ensures.open_tries[C12] old(s.observers) != nil ==> n >= 1
 //@ ensures.bounded[C12,C15] n <= 5
 //@ ensures.until_success[C12] n >= 1 ==> (forall i int :: 0 <= i && i < n - 1 ==> dret("stream.(*stream).openStream", i, 0) != nil) && (dret("stream.(*stream).openStream", n - 1, 0) == nil || s.observers == nil)
 //@ ensures.same_vb[C12] forall i int :: 0 <= i && i < n ==> darg("stream.(*stream).openStream", i, vbID) == vbID && darg("stream.(*stream).openStream", i, s) == s
